@@ -190,6 +190,19 @@ func secKind(p *Pkg, op *Op, creds map[string]refmodel.Cred, installed map[strin
 		return
 	}
 	hasAnd, hasUnsupported, hasBearer := kinds(eff)
+	// goag drops schemes it has no hook for: that is the known finding exactly when no
+	// alternative is left (every alternative names such a scheme) and the operation is
+	// served without any credential; an alternative made of supported schemes is
+	// enforced as usual and judged as usual
+	if hasUnsupported {
+		allAlternativesUnsupported := true
+		for _, alt := range eff {
+			if _, u, _ := kinds([]map[string][]string{alt}); !u {
+				allAlternativesUnsupported = false
+			}
+		}
+		hasUnsupported = allAlternativesUnsupported
+	}
 	if panicked {
 		for n, inst := range installed {
 			if !inst && creds[n] != refmodel.CredAbsent {
